@@ -42,16 +42,22 @@ def oracle_identity(case, rec):
     if 'lagged' in case:
         _, Ya, Xa = gens.build_lagged(case['lagged'])       # overlapping int32 views of one buffer
         Y, X = Ya.astype(np.int64), Xa.astype(np.int64)
-        rec.cls('overlapping-views')
+        rec.cls('views:' + case['lagged'].get('layout', 'windows'))
     else:
         Y, X = gens.materialize_pair(case)
         Ya, Xa = np.ascontiguousarray(Y, dtype=np.int32).copy(), np.ascontiguousarray(X, dtype=np.int32).copy()
     Yl, Xl = Y.tolist(), X.tolist()
     t = rm.tol(Y, X)
     ref = rm.corrected_ref(Yl, Xl)
-    got = float(cut.mutual_info_estimator_numba(Ya, Xa, np.float32(1.0), True))
+    def call():
+        try:
+            return float(cut.mutual_info_estimator_numba(Ya, Xa, np.float32(1.0), True))
+        except Exception as e:  # noqa: BLE001
+            raise Violation(f'estimator raised {type(e).__name__}: {str(e)[:300]} for int32 vectors of length {len(Xa)} '
+                            f'(contiguous: {Ya.flags.c_contiguous}, {Xa.flags.c_contiguous})', kind='C03/exception')
+    got = call()
     if len(Xl) <= 20000:
-        again = float(cut.mutual_info_estimator_numba(Ya, Xa, np.float32(1.0), True))
+        again = call()
         if abs(again - got) > t:
             raise Violation(f'second corrected call on the same array objects gives {again!r}, the first gave {got!r}', kind='C03/identity')
     rec.nt(_nt_identity(Yl, Xl), key=[Yl, Xl] if len(Xl) <= 64 else case)
@@ -140,7 +146,7 @@ def oracle_ranking(case, rec):
                         f'(n={n}, seed={case["k"]})')
 
 
-ORACLES = {'C03/high-card': oracle_identity, 'C03/views': oracle_identity, 'C03/wide': oracle_identity, 'C03/identity': oracle_identity, 'C03/exhaustive': oracle_identity, 'C03/heuristic-flag': oracle_identity,
+ORACLES = {'C03/exception': oracle_identity, 'C03/high-card': oracle_identity, 'C03/views': oracle_identity, 'C03/wide': oracle_identity, 'C03/identity': oracle_identity, 'C03/exhaustive': oracle_identity, 'C03/heuristic-flag': oracle_identity,
            'C03/corollaries': oracle_corollaries, 'C03/constant-feature': oracle_corollaries,
            'C03/identifier-feature': oracle_corollaries, 'C03/self': oracle_corollaries, 'C03/ranking': oracle_ranking}
 
